@@ -99,6 +99,16 @@ def generate_stream_source(rng, tier):
     fe = rng.pick(("pandas", "numpy", "netcdf_obj") if tbl.get("unsorted") else ("pandas", "numpy", "xarray_obj", "netcdf_obj"))
     if tbl.get("frac_ns") or tbl.get("frac_ms"):
         cfg["carrier"] = rng.pick(("dict", "odict", "json"))
+    if fe == "xarray_obj" and tbl.get("xr_time", "coord") == "coord" and rng.chance(0.3):
+        # a dataset whose variables do not all lie along time: "w" has a dimension of its own
+        n = len(tbl["times"])
+        tbl["side"] = {"name": "w", "values": wl.gen_values(rng, n + rng.randint(1, 3))}
+        for c in cfg["contexts"]:
+            if rng.chance(0.7):
+                mod, test, gen = rng.pick((("qartod", "gross_range_test", wl.p_gross_range), ("qartod", "spike_test", wl.p_spike), ("argo", "sim_probe", wl.p_probe)))
+                c["entries"].insert(0 if rng.chance(0.6) else rng.randint(0, len(c["entries"])), {"sid": "w", "module": mod, "test": test, "params": gen(rng), "role": "healthy"})
+        nmsg = sum(len(c["entries"]) for c in cfg["contexts"])
+        orders = [list(range(nmsg))] + [rng.sample(range(nmsg), nmsg) for _ in range(rng.randint(1, 2))]
     nmsg = sum(len(c["entries"]) for c in cfg["contexts"])
     orders = [list(range(nmsg))]
     for _ in range(rng.randint(1, 2)):
@@ -196,6 +206,8 @@ def configured_keys(scn):
         all_keys.add(k)
         if not e["fails"]:
             runnable.add(k)
+        if e.get("side"):
+            continue
         for row in np.flatnonzero(e["rows"]):
             cover.setdefault(k, {}).setdefault(int(row), 0)
             cover[k][int(row)] += 1
@@ -321,8 +333,10 @@ def execute(scn):
             for key in sorted(set(keys) & set(model)):
                 d = model[key]
                 arr = got[key].results if how == "list" else got[key]
-                if np.shape(arr) != (n,):
-                    V.append(violation(PROP, "b", f"collect_{how}", "length", f"{key}: shape {np.shape(arr)} for {n} rows"))
+                side_key = bool(scn["table"].get("side")) and key[0] == scn["table"]["side"]["name"]
+                klen = len(scn["table"]["side"]["values"]) if side_key else n
+                if np.shape(arr) != (klen,):
+                    V.append(violation(PROP, "b", f"collect_{how}", "length", f"{key}: shape {np.shape(arr)} for {klen} rows"))
                     continue
                 fj = pl.flags_json(arr)
                 canon_out[str(key)] = fj
@@ -331,7 +345,7 @@ def execute(scn):
                     bad = [r for r, f in sorted(window_model[key].items()) if r < n and fj[r] != f]
                     if bad:
                         V.append(violation(PROP, "c", f"collect_{how}", "row-carries-another-contexts-flag", f"{key} rows {bad[:5]}: {[fj[r] for r in bad[:5]]} expected {[window_model[key][r] for r in bad[:5]]}"))
-                for row in range(n):
+                for row in range(klen):
                     if row in d["dup"]:
                         continue
                     if row in d["flags"]:
@@ -349,10 +363,10 @@ def execute(scn):
                     covered = sorted(r for r in d["flags"] if r not in d["dup"])
                     for name, src in src_axes.items():
                         src = a["cols_ext"][key[0]] if name == "data" else src
-                        if src is None or not covered:
+                        if src is None or not covered or (side_key and name != "data"):
                             continue
                         have = getattr(c, name)
-                        if have is None or np.shape(have) != (n,):
+                        if have is None or np.shape(have) != (klen,):
                             V.append(violation(PROP, "f", "collect_list", f"{name}-shape", f"{key}: {None if have is None else np.shape(have)}"))
                             continue
                         hv = seams.anyarray_to_json(have)
@@ -362,7 +376,7 @@ def execute(scn):
                         bad = [r for r in covered if hm[r] or hv[r] != wv[r]]
                         if bad:
                             V.append(violation(PROP, "f", "collect_list", f"{name}-differs", f"{key} rows {bad[:5]}: {[hv[r] for r in bad[:5]]} source {[wv[r] for r in bad[:5]]} (order {order})"))
-                        canon_out[str(key) + name] = [None if hm[r] else hv[r] for r in range(n)]
+                        canon_out[str(key) + name] = [None if hm[r] else hv[r] for r in range(klen)]
             out[how] = canon_out
         # e. the two forms agree on covered rows
         if isinstance(out.get("list"), dict) and isinstance(out.get("dict"), dict):
